@@ -124,6 +124,27 @@ CHECKS = {
         note="Prefix texts come from the manual page; notices are tokenised by a reader written for this check; non-ASCII "
              "text is encoded as <U+XXXX> for TLC.",
         ref="5/C20"),
+    "C07": dict(
+        technique="TLA+ state machine of annotate over what a file declares (Annotate.tla: After, Monotone, "
+                  "FailedUntouched, Idempotent) model-checked by TLC; TLC-generated bundles crossed with every entry of "
+                  "the file-type tables read off the code; TLC trace validation (Trace_Annotate, outcome-conditional "
+                  "step relation)",
+        text="For every entry of the extension / file-name tables, every --style, --single-line / --multi-line where "
+             "supported, .license variants, templates, all bundles (prefixes, year forms, several holders / licences / "
+             "contributors) and pre-existing contents, and for invocations over several files, TLC checks that after a "
+             "run reporting success the linter reads exactly what the file declared before plus the request, per file.",
+        note="The linter's view is taken from `reuse lint --json` and the tool's own reader (contributors); requests are concretised from small pools; files that the linter never lists (excluded names, files left empty) are outside the domain.",
+        ref="5/C07"),
+    "C10": dict(
+        technique="same model and trace specification as C07 (Annotate.tla Idempotent; Trace_Annotate C10 clauses); "
+                  "identical command repeated 2 (quick) / 4 (thorough) times on every file type, style and option flavour, "
+                  "LF / CRLF / CR bodies",
+        text="Every entry of the file-type tables x bodies free of other tags {empty, code, own comment, first-line "
+             "declaration} x LF/CRLF/CR x bundles, every --style, --multi-line / --single-line where supported and "
+             "--force-dot-license are annotated repeatedly with the identical command; TLC checks that every repetition "
+             "after a success leaves file and .license sibling byte-identical and that the requested notice occurs once.",
+        note="The linter's view is taken from `reuse lint --json` and the tool's own reader (contributors); requests are concretised from small pools; files that the linter never lists (excluded names, files left empty) are outside the domain. --no-replace is by definition additive and excluded from the re-run clause.",
+        ref="5/C10"),
     "C03": dict(
         technique="TLA+ requirement CoverReq (three-valued: must / must not / unpinned) vs walk-with-pruning mechanism "
                   "model-checked by TLC; TLC-enumerated directory-context x name-class x type x VCS-wish nodes built as "
